@@ -132,7 +132,7 @@ def cc1(tier):
     types = ['LINKED', 'PERMUTATION', 'UNORDERED', 'UNORDERED_NOREPL']
     n_choices = [2, 3]
     n_opts = [2, 3] if tier == 'quick' else [2, 3, 4]
-    placements = ['permanent', 'permanent_shared', 'second_under_first', 'hier', 'mutex', 'perm_cond']
+    placements = ['permanent', 'permanent_indep', 'permanent_shared', 'second_under_first', 'hier', 'hier_indep', 'mutex', 'perm_cond']
     for ctype in types:
         for nc in n_choices:
             for no in n_opts:
@@ -158,6 +158,22 @@ def _cc_specs(ctype, nc, no, placement, tier):
         spec = base()
         for cid in cids:
             add_choice(spec, cid, 'a', no)
+        spec['cc'] = [[ctype, cids]]
+        yield spec
+    elif placement == 'permanent_indep':
+        # constrained permanent choices plus an independent, unconstrained choice (a second scenario in the complete encoder)
+        spec = base()
+        for cid in cids:
+            add_choice(spec, cid, 'a', no)
+        add_choice(spec, 'Z', 'a', 2)
+        spec['cc'] = [[ctype, cids]]
+        yield spec
+    elif placement == 'hier_indep':
+        spec = base()
+        p = add_choice(spec, 'P', 'a', 2)
+        for cid in cids:
+            add_choice(spec, cid, p[0], no)
+        add_choice(spec, 'Z', 'a', 2)
         spec['cc'] = [[ctype, cids]]
         yield spec
     elif placement == 'permanent_shared':
@@ -307,3 +323,40 @@ def met1(tier):
             # names chosen so that the sorted order differs from the creation order
             spec['met'] = {'Mb': dict(c1), 'Ma': dict(c2)}
             yield spec
+
+
+def cyc(tier):
+    """CYC: nested / overlapping derivation cycles entered at different depths.  Nodes X, Y, Z with EVERY subset of the six
+    directed edges among them; an entry choice K: s -> [two of X, Y, Z] (ordered); a downstream choice C hanging off one of them."""
+    trio = ['X', 'Y', 'Z']
+    all_edges = [[u, v] for u in trio for v in trio if u != v]
+    for n_e in range(0, 7):
+        for edges in itertools.combinations(all_edges, n_e):
+            for k_opts in itertools.permutations(trio, 2):
+                for c_origin in trio:
+                    if tier == 'quick' and n_e in (0, 6) and c_origin != 'X':
+                        continue
+                    yield dict(starts=['s'], nodes=trio+['c0', 'c1'], edges=[list(e) for e in edges], incompat=[],
+                               choices=[['C', c_origin, ['c0', 'c1']], ['K', 's', list(k_opts)]])
+
+
+def con3(tier):
+    """CON-3: three (quick: also two) simultaneously active connection choices, each choosing among its targets."""
+    def spec_for(n_choices, tgt_deg, src_deg, cond):
+        sp = skel('one')
+        sp['conn'] = {}
+        sp['cch'] = []
+        for k in range(n_choices):
+            s_name = f'S{k}'
+            sp['conn'][s_name] = dict(deg=src_deg, rep=False, anchor='a')
+            tn = []
+            for j in range(2):
+                t = f'T{k}{j}'
+                sp['conn'][t] = dict(deg=tgt_deg, rep=False, anchor=('o1' if (cond and k == 0 and j == 1) else 'a'))
+                tn.append(t)
+            sp['cch'].append([f'K{k}', [s_name], tn, []])
+        return sp
+    for n_choices in (2, 3):
+        for src_deg, tgt_deg in (('1', '0..1'), ('0..1', '0..1'), ('1', '0..*')):
+            for cond in (False, True):
+                yield spec_for(n_choices, tgt_deg, src_deg, cond)
